@@ -3,7 +3,8 @@ import Moyo.Model.ReduceSpec
 /-
 Driver commands of C14 (import-free):
   c14 mink|nig|del <9 basis entries row-major>            -> `T(9 ints) | bad | fragile | nsteps | exact`
-                                                             (`del` appends ` | T | fragile` of the repaired selection)
+                                                             (`nig` appends ` | branch:count,…`, see `niggliBranch`;
+                                                              `del` appends ` | T | fragile` of the repaired selection)
   c14-isred mink|nig <9 basis entries>                    -> `1|0|?`   (`?` = within float uncertainty of a threshold)
   c14-check mink|nig|del <9 B0> ; <9 T ints> ; <9 reduced>  -> `holds` / `fails: …`
   c14-pair <9 B1> ; <9 B2> ; <9 R1> ; <9 R2>              -> Niggli metric tensors of R1, R2 equal to 1e-6 (B1, B2: the inputs, for replay)
@@ -43,7 +44,12 @@ def cmdReduce (kind : String) (ts : List String) : String :=
     let ex := isExact B
     match kind with
     | "mink" => resToString (minkowskiRes B ex) ex
-    | "nig" => resToString (niggliRes B ex) ex
+    | "nig" =>
+      -- appended: branch coverage `code:count,…` (codes of `niggliBranch`)
+      let r := niggliRes B ex
+      let counts := r.br.foldl (fun (acc : List (Nat × Nat)) c =>
+        if acc.any (·.1 = c) then acc.map (fun e => if e.1 = c then (e.1, e.2 + 1) else e) else (c, 1) :: acc) []
+      resToString r ex ++ " | " ++ ",".intercalate (counts.reverse.map fun e => s!"{e.1}:{e.2}")
     | "del" =>
       -- pinned selection, then the repaired ("guarded") selection: `… | TG | fragileG`
       let g := delaunayResG B ex
